@@ -98,3 +98,194 @@ Print Assumptions C15_raw_numbers_async.
 Print Assumptions C15_worlds_numbers_async.
 Print Assumptions C15_async_simulates_sync.
 Print Assumptions C15_async_observations.
+
+(* ------------------------------------------------------------------ the other three naming schemes, every write mode *)
+(* C15 for NumbersDirect, TimestampsDirect and Timestamps naming: Direct, BufWriter of any capacity, asynchronous with either.
+   Statements only (proofs: Flw/AsyncTransfer.v, Flw/NumDAsync.v, Flw/TsdAsync.v, Flw/TsAsync.v).
+   same_but_mode c1 c2: the configurations differ in c_cap / c_async only.  numdmcfg / tsdmcfg / tsmcfg: the family of the
+   naming scheme (no cleanup, no start-time part, no symlink), ANY mode.  For the time-stamp namings the file NAMES depend on
+   the clock at the rotations; they are given by the keys tsd_keys / ts_keys m t0 ops, functions of the history and the clock
+   (asynchronous mode: the writer thread rotates when it handles the message - under the schedule-point synchronisation of the
+   model and of the test harness that is the same instant of the model clock). *)
+Require Import FL.Time.Civil FL.Flw.NumDInv FL.Flw.NumDRun FL.Flw.NumDTheorems FL.Flw.TsCal FL.Flw.TsTime FL.Flw.TsNames FL.Flw.TsInv
+  FL.Flw.TsRun FL.Flw.TsTheorems FL.Flw.TsdInv FL.Flw.TsdRun FL.Flw.TsdTheorems FL.Flw.NoPanic
+  FL.Flw.AsyncTransfer FL.Flw.NumDAsync FL.Flw.TsdAsync FL.Flw.TsAsync.
+
+(* NumbersDirect: the same files r00000 .. r(n) with the same contents (the greedy partition), nothing else *)
+Theorem C15_modes_numbersdirect :
+  forall c1 c2 m t0 off ops,
+    same_but_mode c1 c2 -> numdmcfg c1 (CSize m) -> Forall basic_op ops ->
+    let f1 := wfs (s_w (fst (run (sys0 t0 off) (OStart c1 :: ops ++ [OStop])))) in
+    let f2 := wfs (s_w (fst (run (sys0 t0 off) (OStart c2 :: ops ++ [OStop])))) in
+    exists files, direct_view c1 f1 files /\ direct_view c1 f2 files /\ direct_view c2 f2 files
+      /\ files = expected_files m None (items false ops).
+Proof. exact numd_modes. Qed.
+
+(* TimestampsDirect: the same files, named by the keys tsd_keys m t0 ops, with the same contents, nothing else *)
+Theorem C15_modes_timestampsdirect :
+  forall c1 c2 m t0 off ops,
+    same_but_mode c1 c2 -> tsdmcfg c1 (CSize m) -> tag_ok c1 -> Forall basic_op ops -> Forall tick_ok ops ->
+    (0 <= t0 + ts_e c1 off)%Z -> (t0 + elapsed ops + ts_e c1 off < sec_max)%Z -> (N.of_nat (length ops) <= usize_max)%N ->
+    let f1 := wfs (s_w (fst (run (sys0 t0 off) (OStart c1 :: ops ++ [OStop])))) in
+    let f2 := wfs (s_w (fst (run (sys0 t0 off) (OStart c2 :: ops ++ [OStop])))) in
+    let keys := tsd_keys m t0 ops in
+    let files := expected_files m None (items false ops) in
+    tsd_view c1 (ts_e c1 off) f1 keys files /\ tsd_view c1 (ts_e c1 off) f2 keys files /\ tsd_view c2 (ts_e c2 off) f2 keys files
+    /\ keys_ok keys /\ (forall k, In k keys -> (t0 <= fst k <= t0 + elapsed ops)%Z).
+Proof. exact tsd_modes. Qed.
+
+(* Timestamps: the same closed files, named by the keys ts_keys m t0 ops, and rCURRENT, with the same contents *)
+Theorem C15_modes_timestamps :
+  forall c1 c2 m t0 off ops,
+    same_but_mode c1 c2 -> tsmcfg c1 (CSize m) -> tag_ok c1 -> Forall basic_op ops -> Forall tick_ok ops ->
+    (0 <= t0 + ts_e c1 off)%Z -> (t0 + elapsed ops + ts_e c1 off < sec_max)%Z -> (N.of_nat (length ops) <= usize_max)%N ->
+    let f1 := wfs (s_w (fst (run (sys0 t0 off) (OStart c1 :: ops ++ [OStop])))) in
+    let f2 := wfs (s_w (fst (run (sys0 t0 off) (OStart c2 :: ops ++ [OStop])))) in
+    let keys := ts_keys m t0 ops in
+    let a := s_run m None ops in
+    ts_dir c1 (ts_e c1 off) f1 keys a /\ ts_dir c1 (ts_e c1 off) f2 keys a /\ ts_dir c2 (ts_e c2 off) f2 keys a
+    /\ files_of a = expected_files m None (items false ops)
+    /\ keys_ok keys /\ (forall k, In k keys -> (t0 <= fst k <= t0 + elapsed ops)%Z).
+Proof. exact ts_modes. Qed.
+
+(* the asynchronous mode: stream (any criterion) and partition (size criterion) *)
+Theorem C15_raw_numbersdirect_async :
+  forall c crit t0 off ops,
+    numdacfg c crit -> Forall basic_op ops ->
+    exists files, direct_view c (wfs (s_w (fst (run (sys0 t0 off) (OStart c :: ops ++ [OStop]))))) files
+      /\ concat files = written ops.
+Proof. exact async_numd_stream. Qed.
+
+Theorem C15_partition_numbersdirect_async :
+  forall c m t0 off ops,
+    numdacfg c (CSize m) -> Forall basic_op ops ->
+    direct_view c (wfs (s_w (fst (run (sys0 t0 off) (OStart c :: ops ++ [OStop]))))) (expected_files m None (items false ops)).
+Proof. exact async_numd_partition. Qed.
+
+Theorem C15_raw_timestampsdirect_async :
+  forall c crit t0 off ops,
+    tsdacfg c crit -> tag_ok c -> Forall basic_op ops -> Forall tick_ok ops ->
+    (0 <= t0 + ts_e c off)%Z -> (t0 + elapsed ops + ts_e c off < sec_max)%Z -> (N.of_nat (length ops) <= usize_max)%N ->
+    exists keys files,
+      tsd_view c (ts_e c off) (wfs (s_w (fst (run (sys0 t0 off) (OStart c :: ops ++ [OStop]))))) keys files
+      /\ concat files = written ops /\ keys_ok keys
+      /\ (forall k, In k keys -> (t0 <= fst k <= t0 + elapsed ops)%Z).
+Proof. exact async_tsd_stream. Qed.
+
+Theorem C15_partition_timestampsdirect_async :
+  forall c m t0 off ops,
+    tsdacfg c (CSize m) -> tag_ok c -> Forall basic_op ops -> Forall tick_ok ops ->
+    (0 <= t0 + ts_e c off)%Z -> (t0 + elapsed ops + ts_e c off < sec_max)%Z -> (N.of_nat (length ops) <= usize_max)%N ->
+    tsd_view c (ts_e c off) (wfs (s_w (fst (run (sys0 t0 off) (OStart c :: ops ++ [OStop]))))) (tsd_keys m t0 ops)
+             (expected_files m None (items false ops))
+    /\ keys_ok (tsd_keys m t0 ops) /\ (forall k, In k (tsd_keys m t0 ops) -> (t0 <= fst k <= t0 + elapsed ops)%Z).
+Proof. exact async_tsd_partition. Qed.
+
+Theorem C15_raw_timestamps_async :
+  forall c crit t0 off ops,
+    tsacfg c crit -> tag_ok c -> Forall basic_op ops -> Forall tick_ok ops ->
+    (0 <= t0 + ts_e c off)%Z -> (t0 + elapsed ops + ts_e c off < sec_max)%Z -> (N.of_nat (length ops) <= usize_max)%N ->
+    let f := wfs (s_w (fst (run (sys0 t0 off) (OStart c :: ops ++ [OStop])))) in
+    (names f = [] /\ written ops = [])
+    \/ exists keys closed cur,
+         ts_view c (ts_e c off) f keys closed cur
+         /\ concat closed ++ cur = written ops
+         /\ keys_ok keys
+         /\ (forall k, In k keys -> (t0 <= fst k <= t0 + elapsed ops)%Z).
+Proof. exact async_ts_stream. Qed.
+
+Theorem C15_partition_timestamps_async :
+  forall c m t0 off ops,
+    tsacfg c (CSize m) -> tag_ok c -> Forall basic_op ops -> Forall tick_ok ops ->
+    (0 <= t0 + ts_e c off)%Z -> (t0 + elapsed ops + ts_e c off < sec_max)%Z -> (N.of_nat (length ops) <= usize_max)%N ->
+    ts_dir c (ts_e c off) (wfs (s_w (fst (run (sys0 t0 off) (OStart c :: ops ++ [OStop]))))) (ts_keys m t0 ops) (s_run m None ops)
+    /\ files_of (s_run m None ops) = expected_files m None (items false ops)
+    /\ keys_ok (ts_keys m t0 ops) /\ (forall k, In k (ts_keys m t0 ops) -> (t0 <= fst k <= t0 + elapsed ops)%Z).
+Proof. exact async_ts_partition. Qed.
+
+(* what the caller of an asynchronous writer observes *)
+Theorem C15_async_observations_numbersdirect :
+  forall c crit t0 off ops,
+    numdacfg c crit -> Forall basic_op ops ->
+    let r := run (sys0 t0 off) (OStart c :: ops ++ [OStop]) in
+    Forall2 aobs (OStart c :: ops ++ [OStop]) (snd r)
+    /\ s_flw (fst r) = None /\ s_dead (fst r) = true /\ pending (fst r) = [].
+Proof. exact async_numd_observations. Qed.
+
+Theorem C15_async_observations_timestampsdirect :
+  forall c crit t0 off ops,
+    tsdacfg c crit -> tag_ok c -> Forall basic_op ops -> Forall tick_ok ops ->
+    (0 <= t0 + ts_e c off)%Z -> (t0 + elapsed ops + ts_e c off < sec_max)%Z -> (N.of_nat (length ops) <= usize_max)%N ->
+    let r := run (sys0 t0 off) (OStart c :: ops ++ [OStop]) in
+    Forall2 aobs (OStart c :: ops ++ [OStop]) (snd r)
+    /\ s_flw (fst r) = None /\ s_dead (fst r) = true /\ pending (fst r) = [].
+Proof. exact async_tsd_observations. Qed.
+
+Theorem C15_async_observations_timestamps :
+  forall c crit t0 off ops,
+    tsacfg c crit -> tag_ok c -> Forall basic_op ops -> Forall tick_ok ops ->
+    (0 <= t0 + ts_e c off)%Z -> (t0 + elapsed ops + ts_e c off < sec_max)%Z -> (N.of_nat (length ops) <= usize_max)%N ->
+    let r := run (sys0 t0 off) (OStart c :: ops ++ [OStop]) in
+    Forall2 aobs (OStart c :: ops ++ [OStop]) (snd r)
+    /\ s_flw (fst r) = None /\ s_dead (fst r) = true /\ pending (fst r) = [].
+Proof. exact async_ts_observations. Qed.
+
+(* TimestampsDirect (not covered by AsyncSim.v): identical worlds of the asynchronous writer and the synchronous writer of
+   the same capacity, any criterion *)
+Theorem C15_worlds_timestampsdirect_async :
+  forall c crit t0 off ops,
+    tsdacfg c crit -> tag_ok c -> Forall basic_op ops -> Forall tick_ok ops ->
+    (0 <= t0 + ts_e c off)%Z -> (t0 + elapsed ops + ts_e c off < sec_max)%Z -> (N.of_nat (length ops) <= usize_max)%N ->
+    let ra := run (sys0 t0 off) (OStart c :: ops) in
+    let rs := run (sys0 t0 off) (OStart (sync_of c) :: ops) in
+    let ra' := run (sys0 t0 off) (OStart c :: ops ++ [OStop]) in
+    let rs' := run (sys0 t0 off) (OStart (sync_of c) :: ops ++ [OStop]) in
+    s_w (fst ra) = s_w (fst rs) /\ snd ra = List.map no_rot (snd rs)
+    /\ s_w (fst ra') = s_w (fst rs') /\ snd ra' = List.map no_rot (snd rs').
+Proof. exact async_tsd_worlds. Qed.
+
+Check C15_modes_numbersdirect. Check C15_modes_timestampsdirect. Check C15_modes_timestamps.
+Print Assumptions C15_modes_numbersdirect.
+Print Assumptions C15_modes_timestampsdirect.
+Print Assumptions C15_modes_timestamps.
+Print Assumptions C15_raw_numbersdirect_async.
+Print Assumptions C15_partition_numbersdirect_async.
+Print Assumptions C15_raw_timestampsdirect_async.
+Print Assumptions C15_partition_timestampsdirect_async.
+Print Assumptions C15_raw_timestamps_async.
+Print Assumptions C15_partition_timestamps_async.
+Print Assumptions C15_async_observations_numbersdirect.
+Print Assumptions C15_async_observations_timestampsdirect.
+Print Assumptions C15_async_observations_timestamps.
+Print Assumptions C15_worlds_timestampsdirect_async.
+
+(* the same, literally: the two final directories are the same map from names to files (same_dir: kind and content under
+   every name); for the time-stamp namings also the snapshots (names in sorted order, kind, content) are equal *)
+Theorem C15_same_directory_numbersdirect :
+  forall c1 c2 m t0 off ops,
+    same_but_mode c1 c2 -> numdmcfg c1 (CSize m) -> Forall basic_op ops ->
+    same_dir (wfs (s_w (fst (run (sys0 t0 off) (OStart c1 :: ops ++ [OStop])))))
+             (wfs (s_w (fst (run (sys0 t0 off) (OStart c2 :: ops ++ [OStop]))))).
+Proof. exact numd_modes_same_dir. Qed.
+
+Theorem C15_same_directory_timestampsdirect :
+  forall c1 c2 m t0 off ops,
+    same_but_mode c1 c2 -> tsdmcfg c1 (CSize m) -> tag_ok c1 -> Forall basic_op ops -> Forall tick_ok ops ->
+    (0 <= t0 + ts_e c1 off)%Z -> (t0 + elapsed ops + ts_e c1 off < sec_max)%Z -> (N.of_nat (length ops) <= usize_max)%N ->
+    let x1 := fst (run (sys0 t0 off) (OStart c1 :: ops ++ [OStop])) in
+    let x2 := fst (run (sys0 t0 off) (OStart c2 :: ops ++ [OStop])) in
+    same_dir (wfs (s_w x1)) (wfs (s_w x2)) /\ FL.Flw.NumRestart.snap_of x1 = FL.Flw.NumRestart.snap_of x2.
+Proof. exact tsd_modes_same_dir. Qed.
+
+Theorem C15_same_directory_timestamps :
+  forall c1 c2 m t0 off ops,
+    same_but_mode c1 c2 -> tsmcfg c1 (CSize m) -> tag_ok c1 -> Forall basic_op ops -> Forall tick_ok ops ->
+    (0 <= t0 + ts_e c1 off)%Z -> (t0 + elapsed ops + ts_e c1 off < sec_max)%Z -> (N.of_nat (length ops) <= usize_max)%N ->
+    let x1 := fst (run (sys0 t0 off) (OStart c1 :: ops ++ [OStop])) in
+    let x2 := fst (run (sys0 t0 off) (OStart c2 :: ops ++ [OStop])) in
+    same_dir (wfs (s_w x1)) (wfs (s_w x2)) /\ FL.Flw.NumRestart.snap_of x1 = FL.Flw.NumRestart.snap_of x2.
+Proof. exact ts_modes_same_dir. Qed.
+
+Print Assumptions C15_same_directory_numbersdirect.
+Print Assumptions C15_same_directory_timestampsdirect.
+Print Assumptions C15_same_directory_timestamps.
